@@ -83,16 +83,21 @@ def cborIndefDecode (loads : Bytes → R CborItem) (enc : Bytes) : R (List CborI
           | .error e => throw e
   go (enc.length + 1) 1 []
 
-/-- native `loads` for major type 0 and a few one-byte items; everything else is an oracle miss. -/
+/-- `cbor2.loads` of one element slice, as the repaired decoder uses it: unsigned integers are
+returned, negative integers (major type 1) too (as `.other`, the harness prints them), a truncated
+argument is `ValueError`, every other item is refused with `ValueError` (the decoder hands `loads`
+a one-byte slice for every initial byte other than 0x18..0x1b, so tags and strings are either
+non-integers or truncated). -/
 def cborLoadsUint (b : Bytes) : R CborItem :=
   match b with
-  | [] => throw .thirdParty
+  | [] => throw .value
   | b0 :: rest =>
     if b0.toNat < 24 then pure (.uint b0.toNat)
     else if b0.toNat ≤ 27 then
       let n := 1 <<< (b0.toNat - 24)
-      if rest.length < n then throw .thirdParty   -- CBORDecodeEOF
+      if rest.length < n then throw .value
       else pure (.uint (Bytes.toNatBE (rest.take n)))
-    else throw .oracleMiss
+    else if 32 ≤ b0.toNat ∧ b0.toNat < 56 then pure .other    -- small negative integers
+    else throw .value
 
 end BipVerif.Model
